@@ -38,6 +38,8 @@ m("c04_reconstruct_wrong_sign", C, "                    apply_interval_conversio
 m("c04_exponent_unit_ignored", E, "    if !pow.unit.is_empty() {\n        return Err(Error::new(span, IllegalPowerUnit));\n    }\n", "", "C04")
 m("c05_unit_number_only_zero_refused", E, "                if power != 1 {\n                    return Err(Error::new(*node.span(), IllegalUnitNumber));", "                if power == 0 {\n                    return Err(Error::new(*node.span(), IllegalUnitNumber));", "C05")
 m("c05_unit_exponent_wraps", E, "                        let power = match str::parse::<i32>(&source[span.range()]) {\n                            Ok(power) => power,", "                        let power = match str::parse::<i64>(&source[span.range()]) {\n                            Ok(power) => power as i32,", "C05")
+# a unit with an open finding gets yet another wrong value (fails the repository's own test_dalton: only the key of the finding is tested here)
+m("c05_dalton_another_wrong_value", "src/units/mass.rs", "            numer: 332107813321,\n            denom: 200000000000,", "            numer: 332107813321,\n            denom: 100000000000,", "C05")
 # ---- offset scales in products (fixes fbd1cc5, a4bfbd5)
 m("c13_zero_point_added_in_products", C, "        Conversion::Offset(..) => return,", "        Conversion::Offset(fraction) => {\n            *ratio += Rational::new(fraction.numer, fraction.denom) * Rational::new(pow, 1);\n            return;\n        }", "C13 C09")
 m("c13_fahrenheit_degree_is_one_kelvin", C, "            one - zero\n", "            one\n", "C13 C09")
